@@ -2,6 +2,7 @@
 use crate::util::Ctx;
 pub mod fs;
 pub mod fs_prodos;
+pub mod fs_dos;
 pub mod fs_cpm;
 pub mod fs_fat;
 pub mod c01;
